@@ -82,6 +82,24 @@ pub fn run_script(steps: Vec<GStep>) {
                     rec.moves.pop();
                 }
             }
+            GK::RepeatAfterBest => {
+                let rev = |m: &str| -> Option<String> {
+                    if m.len() == 4 {
+                        Some(format!("{}{}", &m[2..4], &m[0..2]))
+                    } else {
+                        None
+                    }
+                };
+                if let (Some(p), Some(m), Some(b)) = (rec.pos(), rec.moves.last().cloned(), sched::gui_last_bestmove()) {
+                    if let (Some(mr), Some(br)) = (rev(&m), rev(&b)) {
+                        let mut q = p.clone();
+                        let seq = [b.clone(), mr, br, m.clone()];
+                        if seq.iter().all(|x| q.play(x)) && q.placement() == p.placement() && q.castling() == p.castling() {
+                            rec.moves.extend(seq);
+                        }
+                    }
+                }
+            }
             GK::GoClock { own, own_inc, opp, opp_inc } => {
                 let white = rec.pos().map_or(true, |p| p.white_to_move());
                 let line = if white {
